@@ -325,6 +325,29 @@ def _schedule_traffic(rr):
 
 
 def make_driver(plan, world):
+    d = _make_driver(plan, world)
+    k = plan["knobs"]
+    late = getattr(world, "_late_map", None)
+    if late is not None:
+        # the application hands over its (still empty) mapper and fills it afterwards
+        m, entries = late
+        for a, i, t in entries:
+            m.add_type(short_address=a, instance_number=i, instance_type=t)
+        d._verif_inst_map = m
+        world._late_map = None
+    return d
+
+
+def _inst_map_arg(k, world):
+    if k.get("inst_map") is not None and k.get("inst_map_late"):
+        from dali.device.helpers import DeviceInstanceTypeMapper
+        m = DeviceInstanceTypeMapper()
+        world._late_map = (m, k["inst_map"])
+        return m
+    return make_inst_map(k.get("inst_map"))
+
+
+def _make_driver(plan, world):
     drv = plan["driver"]
     k = plan["knobs"]
     if drv in ("tridonic", "hasseb"):
@@ -333,15 +356,15 @@ def make_driver(plan, world):
                 reconnect_interval=k.get("reconnect_interval", 1),
                 reconnect_limit=k.get("reconnect_limit", None),
                 glob=bool(k.get("glob")),
-                dev_inst_map=make_inst_map(k.get("inst_map")))
+                dev_inst_map=_inst_map_arg(k, world))
         if "exceptions_on_send" in k:
             d.exceptions_on_send = k["exceptions_on_send"]
         return d
     if drv == "luba":
         return sermod.DriverLubaRs232("luba232:/dev/ttySIM",
-                                      dev_inst_map=make_inst_map(k.get("inst_map")))
+                                      dev_inst_map=_inst_map_arg(k, world))
     return sermod.DriverSCIRS232("scirs232:/dev/ttySIM",
-                                 dev_inst_map=make_inst_map(k.get("inst_map")))
+                                 dev_inst_map=_inst_map_arg(k, world))
 
 
 def make_inst_map(entries):
